@@ -552,11 +552,12 @@ def run(ctx):
                     top.add_bond(handles[u], handles[v]); sbonds.append((u, v))
         log = []
         bad = None
+        eops, n0_, bonds0_ = [], len(shadow), list(sbonds)
         for step in range(rng.randrange(1, 6)):
             n = len(shadow)
             if n and rng.random() < 0.6:
                 i = rng.randrange(n)
-                top.delete_atom_by_index(i); log.append("delete %d" % i)
+                top.delete_atom_by_index(i); log.append("delete %d" % i); eops.append("d%d" % i)
                 u = shadow.pop(i)[0]
                 for lst in resorder.values():
                     if u in lst:
@@ -567,6 +568,7 @@ def run(ctx):
                 i = rng.randrange(n + 1); ri_ = rng.randrange(len(resorder[id(r)]) + 1)
                 nm = rng.choice(["M", "H", "C1"])
                 a = top.insert_atom(nm, E_.virtual if nm == "M" else E_.get_by_symbol(nm[0]), r, index=i, rindex=ri_); log.append("insert %s at %d (place %d of its residue)" % (nm, i, ri_))
+                eops.append("i%d:%d" % (i, uid))
                 shadow.insert(i, [uid, nm, id(r)]); resorder[id(r)].insert(ri_, uid); handles[uid] = a; uid += 1
             pos = {x[0]: j for j, x in enumerate(shadow)}
             want_atoms = [(x[1], x[2]) for x in shadow]
@@ -580,6 +582,15 @@ def run(ctx):
                     "; ".join(log), None if got_atoms is None else [x[0] for x in got_atoms], got_res, got_b, [x[0] for x in want_atoms], want_res, want_b)
                 break
         ctx.case(None, ("edit", k)); ctx.count("calls:edit histories (insert_atom / delete_atom_by_index)")
+        # the same history in the Lean edit model (TopoEdit.runE): order of the atoms by identity, their index fields, the bonds by position
+        if ctx.driver_ok and not bad:
+            line = ctx.driver.query(["topedit %d %s %s" % (n0_, ",".join("%d-%d" % b for b in bonds0_) or "-", ";".join(eops) or "-")])[0]
+            inv_ = {id(a_): u_ for u_, a_ in handles.items()}
+            got_line = "%s | %s | %s" % (",".join(str(inv_.get(id(top.atom(j)), -1)) for j in range(top.n_atoms)), ",".join(str(top.atom(j).index) for j in range(top.n_atoms)),
+                                        ",".join("%d-%d" % (b[0].index, b[1].index) for b in top.bonds))
+            norm_ = lambda l_: (l_.split(" | ")[0].strip(), l_.split(" | ")[1].strip(), sorted(tuple(sorted(map(int, x.split("-")))) for x in l_.split(" | ")[2].strip().split(",") if x)) if l_ and l_.count(" | ") == 2 else l_
+            if norm_(line) != norm_(got_line):
+                ctx.broke("correspondence:edit-history", "ops %s on %d atoms with bonds %s: impl '%s', model '%s'" % (eops, n0_, bonds0_, got_line, line))
         if bad:
             viol("edit|shadow", "insert_atom / delete_atom_by_index: " + bad, dict(log=log))
             continue
